@@ -70,10 +70,8 @@ class StepRun:
                 self.overlap_loads.add(e.data[2].uid)
 
     def _policy(self, callee: FuncInfo, rc, fr) -> bool:
-        if callee.module != "propagation" or callee.cls is None:
-            return False
-        return any(getattr(prm.annotation, "id", None) == "dict" and prm.name.startswith("prop")
-                   for prm in callee.params)
+        from ..symex import walker_state_glue
+        return callee.module == "propagation" and walker_state_glue(callee)
 
     def weight_stores(self, key: str = "weights") -> List[WeightStore]:
         out = []
